@@ -308,14 +308,16 @@ func (n *networkTopology) replicaMap(tokenRing *tokenRing) tokenRingReplicas {
 		replicaRing = append(replicaRing, hostTokens{th.token, replicas})
 	}
 
-	dcsWithReplicas := 0
-	for _, dc := range n.dcs {
-		if dc > 0 {
-			dcsWithReplicas++
+	// every token has an entry when every datacenter of the ring holds replicas
+	allRingDCsReplicated := true
+	for dc := range dcRacks {
+		if n.dcs[dc] == 0 {
+			allRingDCsReplicated = false
+			break
 		}
 	}
 
-	if dcsWithReplicas == len(dcRacks) && len(replicaRing) != len(tokens) {
+	if allRingDCsReplicated && len(replicaRing) != len(tokens) {
 		panic(fmt.Sprintf("token map different size to token ring: got %d expected %d", len(replicaRing), len(tokens)))
 	}
 
